@@ -656,6 +656,11 @@ def valid(m, op):
             return False     # refused since the fix 'refuse a hybrid partition entry that the EFI or Mac image needs'
         if op.get('mac') and op.get('part_type') not in (None, 0):
             return False
+        n_efi = len([e for e in m.eltorito['entries'][1:] if e.get('efi')])
+        if efi and n_efi < 1:
+            return False     # refused since the fix 'add_isohybrid refuses EFI support without an EFI boot entry'
+        if op.get('mac') and n_efi < 2:
+            return False     # outside the modelled domain: the Mac partition describes the second EFI image
         return any(off == 0x40 and bytes.fromhex(h)[:4] == b'\xfb\xc0\x78\x70' for off, h in b.overlays)
     if k == 'rm_isohybrid':
         return bool(m.hybrid)
